@@ -185,7 +185,11 @@ def _rule_r2_r3(text, log):
     def r2(mm):
         nonlocal n2
         n2 += 1
-        return '%sfor __i_%s in 0..%s.len() { let %s = %s[__i_%s];' % (mm.group(1), mm.group(2), mm.group(3), mm.group(2), mm.group(3), mm.group(2))
+        # a `while` with an explicit index (a `for` over a range hides its iterator state, which a labelled
+        # `break` out of a nested loop would need in the inner invariants); the index is advanced right after the
+        # element is read, so `continue` behaves as in the original
+        return ('let mut __i_%s: usize = 0; %swhile __i_%s < %s.len() { let %s = %s[__i_%s]; __i_%s = __i_%s + 1;'
+                % (mm.group(2), mm.group(1), mm.group(2), mm.group(3), mm.group(2), mm.group(3), mm.group(2), mm.group(2), mm.group(2)))
     text = re.sub(r"((?:'[a-z_]+\s*:\s*)?)for\s+([a-z_][a-z0-9_]*)\s+in\s+([A-Z][A-Z0-9_]*)\s*\{", r2, text)
     if n2:
         log.append(('R2', n2))
@@ -330,6 +334,44 @@ def _rule_r6(text, log):
     return out
 
 
+def _rule_r12(text, log):
+    """R12: compound assignment `lhs op= rhs;` -> `lhs = lhs op (rhs);` (Verus crashes on compound assignment
+    to floats; the two forms are equivalent for every primitive numeric type)."""
+    m = rs.mask(text)
+    out = []
+    last = 0
+    n = 0
+    for mm in re.finditer(r'(?<![A-Za-z0-9_\]\)\.])(\*?[A-Za-z_][A-Za-z0-9_]*(?:\.[A-Za-z_0-9]+|\[[^\[\]]*(?:\[[^\]]*\][^\[\]]*)*\])*)\s*([-+*/])=(?!=)', m):
+        if mm.start() < last:
+            continue
+        # rhs runs to the ';' at depth 0
+        j = mm.end()
+        d = 0
+        while j < len(m):
+            ch = m[j]
+            if ch in '([{':
+                d += 1
+            elif ch in ')]}':
+                if d == 0:
+                    break
+                d -= 1
+            elif ch == ';' and d == 0:
+                break
+            elif ch == ',' and d == 0:
+                break
+            j += 1
+        lhs = text[mm.start(1):mm.end(1)]
+        rhs = text[mm.end():j].strip()
+        out.append(text[last:mm.start()])
+        out.append('%s = %s %s (%s)' % (lhs, lhs, mm.group(2), rhs))
+        last = j
+        n += 1
+    out.append(text[last:])
+    if n:
+        log.append(('R12', n))
+    return ''.join(out)
+
+
 def apply_rewrites(text, log, rules):
     text = _strip_docs_attrs(text, log)
     if 'D2' in rules:
@@ -340,8 +382,32 @@ def apply_rewrites(text, log, rules):
         text, n10 = re.subn(r'\b([a-z_][a-z0-9_]*)\[\(\s*([^,\[\]()]+?)\s*,\s*([^,\[\]()]+?)\s*\)\]', r'\1.at(\2, \3)', text)
         if n10:
             log.append(('R10', n10))
+    if 'R13' in rules:
+        # i8 -> f64 cast of a sign correction: Verus gives the exec cast no spec; route it through a shim
+        text, n13 = re.subn(r'\b([A-Za-z_][A-Za-z0-9_.]*sign_corrections\[[^\[\]]*\])\s+as\s+f64', r'i8_to_f64(\1)', text)
+        if n13:
+            log.append(('R13', n13))
+    if 'R15' in rules and re.search(r'\bfn\b', text):
+        # const items nested in a function body -> let bindings (same value; Verus rejects float expressions in consts)
+        text, n15 = re.subn(r'(?m)^([ \t]+)const\s+([A-Z_0-9]+)\s*:', r'\1let \2:', text)
+        if n15:
+            log.append(('R15', n15))
+    if 'R4' in rules:
+        text, n4 = re.subn(r'\b([a-z_][a-z0-9_]*)\.extend\(&([a-z_][a-z0-9_]*)\);', r'vec_extend_ref(&mut \1, &\2);', text)
+        if n4:
+            log.append(('R4', n4))
     if 'R6' in rules:
         text = _rule_r6(text, log)
+    if 'R14' in rules:
+        # `for x in 0..E.len() {`  ->  `let __n_x = E.len(); for x in 0..__n_x {`  (the range is evaluated once at
+        # loop entry in Rust as well; naming the bound lets invariants speak about it when E is mutated in the body)
+        def r14(mm):
+            return '%slet __n_%s = %s.len(); %sfor %s in 0..__n_%s {' % (mm.group(1), mm.group(3), mm.group(4), mm.group(2), mm.group(3), mm.group(3))
+        text, n14 = re.subn(r"(^[ \t]*)((?:'[a-z_]+\s*:\s*)?)for\s+([a-z_][a-z0-9_]*)\s+in\s+0\.\.([A-Za-z_][A-Za-z0-9_.]*)\.len\(\)\s*\{", r14, text, flags=re.M)
+        if n14:
+            log.append(('R14', n14))
+    if 'R12' in rules:
+        text = _rule_r12(text, log)
     if 'R8' in rules:
         text = _rule_r8(text, log)
     for r in rules:
@@ -504,6 +570,8 @@ def splice_fn(item_text, ann, log):
             continue
         ls = body.rfind('\n', 0, pos) + 1
         ins.append((ls, payload + '\n'))
+    if ann.get('tail'):
+        ins.append((len(body) - 1, '\n' + ann['tail'] + '\n'))
     st = '' if ann.get('noaxioms') else 'proof { unit_axioms(); }'
     if ann.get('start'):
         st = st + '\n' + ann['start']
@@ -607,6 +675,8 @@ def generate(unit_path, repo=REPO):
                         ann['spec'] = txt
                     elif section == 'start':
                         ann['start'] = txt
+                    elif section == 'tail':
+                        ann['tail'] = txt
                     elif section == 'loop':
                         ann['loops'][sect_arg[0]] = (sect_arg[1], txt)
                     elif section == 'before':
@@ -628,12 +698,16 @@ def generate(unit_path, repo=REPO):
                             nm = d2.split()
                             ann = dict(attr=[], loops={}, loopend={}, loopstart={}, preloop={}, postloop={}, before=[], ret=dict(re.findall(r'(ret)=(\S+)', d2)).get('ret'), nested={})
                             top_ann['nested'][nm[1]] = ann
+                        elif d2 == 'outer':
+                            ann = top_ann
                         elif d2.startswith('attr '):
                             ann['attr'].append(d2[5:])
                         elif d2 == 'spec':
                             section = 'spec'
                         elif d2 == 'start':
                             section = 'start'
+                        elif d2 == 'tail':
+                            section = 'tail'
                         elif d2.startswith('loop '):
                             mm = re.match(r'loop\s+(\d+)(?:\s+`(.*)`)?', d2)
                             section = 'loop'
